@@ -372,6 +372,33 @@ def run_shard(shard: Dict[str, Any], rep: Report) -> None:
     except Exception as e:
         viol("static_argument_jit_raises", {"error": repr(e)[:300]})
 
+    # ---- 2e. new-style typed keys ("all keys"): jax.random.key(n) carries the same bits as PRNGKey(n), so reset and the steps
+    # that follow must give the same states and timesteps, the key leaf apart from its representation
+    try:
+        def untyped(tr):
+            return jax.tree_util.tree_map(lambda x: jax.random.key_data(x) if jnp.issubdtype(getattr(x, "dtype", jnp.int32), jax.dtypes.prng_key) else x, tr)
+
+        for (key, kint) in keys[:2]:
+            tk = jax.random.wrap_key_data(jnp.asarray(key, jnp.uint32))
+            s_t, t_t = jax.jit(env.reset)(tk)
+            s_l, t_l = runner.reset(key)
+            rep.evaluated(1)
+            rep.count("typed_key_pairs")
+            bad = tree_diff(dec_pair(untyped(s_t), t_t), dec_pair(s_l, t_l), exact=False, rtol=1e-5, atol=1e-6)
+            for i in range(3):
+                if bad or int(np.asarray(t_l.step_type)) == 2:
+                    break
+                a = A.as_action(runner.spec, A.sample_masked(name, runner.spec, A.get_mask(t_l), rng)[0] if i % 2 == 0 else A.sample_random(runner.spec, rng))
+                s_t, t_t = jax.jit(env.step)(s_t, a)
+                s_l, t_l = runner.step(s_l, a)
+                rep.evaluated(1)
+                rep.count("typed_key_pairs")
+                bad = tree_diff(dec_pair(untyped(s_t), t_t), dec_pair(s_l, t_l), exact=False, rtol=1e-5, atol=1e-6)
+            if bad:
+                viol("typed_key_equals_legacy_key", {"key": kint, "fields": bad[:6]})
+    except Exception as e:
+        viol("typed_key_raises", {"error": repr(e)[:300]})
+
     # ---- 2d. one state stepped twice inside a single trace ---------------------------------------------------------------
     # (an expansion `[env.step(s, a) for a in actions]` inside one jitted function: a step that writes into its argument would
     # hand the second call a modified state, although every separately jitted call is unaffected)
